@@ -35,7 +35,7 @@ echo "== demo with change" >>"$log"
 git add -A >>"$log" 2>&1; git -c user.email=v@v -c user.name=v commit -q -m change >>"$log" 2>&1
 if ! apply "$demo"; then echo "$name: DEMO-DOES-NOT-APPLY suite=$suite_result" | tee -a "$log"; exit 5; fi
 git add -A >>"$log" 2>&1
-tests=$(git diff --cached -U0 | grep -E "^\+\s*(pub )?(async )?fn [a-zA-Z0-9_]+\(\)" | sed -E 's/.*fn ([a-zA-Z0-9_]+)\(\).*/\1/' | sort -u | tr '\n' ' ')
+tests=$(git diff --cached -U0 | grep -E "^\+\s*(pub )?(async )?fn [a-zA-Z0-9_]+\(" | sed -E 's/.*fn ([a-zA-Z0-9_]+)\(.*/\1/' | sort -u | tr '\n' ' ')
 [ -n "${DEMO_TESTS:-}" ] && tests="$DEMO_TESTS"
 filter=""; for t in $tests; do [ -n "$filter" ] && filter="$filter or "; filter="${filter}test(/(^|::)$t\$/)"; done
 echo "demo tests: $tests" >>"$log"
